@@ -10,6 +10,7 @@ import (
 
 	"verif/eng"
 	"verif/ref"
+	"verif/snap"
 )
 
 // C13 — bridge safety.
@@ -215,8 +216,32 @@ func (m *C13) AfterMsg(w *eng.World, st *eng.MsgStep) {
 		}
 	}
 	if st.Res.OK {
+		// the allowed-chain list is what governance set (names are stored lower-cased)
+		switch msg := st.Msg.(type) {
+		case *basetypes.MsgAddAllowedBridgeChain:
+			if !hasChain(post, strings.ToLower(msg.ChainName)) {
+				w.Violation("C13", "chain-not-added", "AddAllowedBridgeChain(%q) accepted but %q is not on the list", msg.ChainName, strings.ToLower(msg.ChainName))
+			}
+		case *basetypes.MsgRemoveAllowedBridgeChain:
+			if hasChain(post, strings.ToLower(msg.ChainName)) {
+				w.Violation("C13", "chain-not-removed", "RemoveAllowedBridgeChain(%q) accepted but the chain is still on the list", msg.ChainName)
+			}
+		default:
+			if len(pre.BridgeChains) != len(post.BridgeChains) {
+				w.Violation("C13", "chain-list-changed", "%s changed the allowed bridge chain list", st.Kind)
+			}
+		}
 		m.checkTables(w, st)
 	}
+}
+
+func hasChain(s *snap.Snap, name string) bool {
+	for _, c := range s.BridgeChains {
+		if c.ChainName == name {
+			return true
+		}
+	}
+	return false
 }
 
 func (m *C13) checkTables(w *eng.World, st *eng.MsgStep) {
